@@ -93,9 +93,7 @@ impl<P: SizedPayload> St<P> {
             OpK::Compare => self.op_compare(i, op[2], op[3]),
         }
         viol::set_ctx("");
-        if !viol::any() {
-            self.check_all();
-        }
+        self.check_all();
     }
 
     fn op_read(&mut self, i: usize) {
@@ -926,37 +924,91 @@ impl<P: SizedPayload> St<P> {
         }
     }
 
-    fn op_compare(&mut self, i: usize, _b: u8, c: u8) {
+    fn op_compare(&mut self, i: usize, b: u8, c: u8) {
         let j = pick(c, self.slots.len());
         let (vi, vj) = (self.allocs[self.slots[i].alloc].val, self.allocs[self.slots[j].alloc].val);
-        let same = self.slots[i].alloc == self.slots[j].alloc;
         let mut res: Option<bool> = None;
         if P::ZST {
             return self.op_read(i);
         }
-        match (&self.slots[i].h, &self.slots[j].h) {
-            (H::Arc(x), H::Arc(y)) => {
-                let _ = same;
-                res = Some(lib!(x == y));
-                let mut h = std::collections::hash_map::DefaultHasher::new();
-                std::hash::Hash::hash(x, &mut h);
-                let _ = format!("{:?}", x);
-            }
-            (H::Off(x), H::Off(y)) => {
-                res = Some(lib!(x == y));
-                let _ = format!("{:?}", x);
-            }
-            (H::Hs(x), H::Hs(y)) => {
-                res = Some(lib!(x == y));
-            }
-            _ => {}
+        // while the payload's own eq / partial_cmp / hash / fmt runs, every count accessor of every
+        // handle must still report the model's owners (comparing / hashing / formatting is count-neutral
+        // "not even while the borrow is in use")
+        let seen = std::cell::Cell::new(false);
+        {
+            let slots = &self.slots;
+            let allocs = &self.allocs;
+            let obs = |what: &'static str| {
+                seen.set(true);
+                for (sj, s) in slots.iter().enumerate() {
+                    let owners = allocs[s.alloc].owners as usize;
+                    for (n, cnt) in counts(&s.h) {
+                        if cnt != owners {
+                            viol::report(PN, "N.count-during-callback", format!("while the payload's {} ran, {} on slot {} ({:?}) reported {} but {} owning handles exist", what, n, sj, s.h.kind(), cnt, owners));
+                        }
+                    }
+                }
+            };
+            let which = pick(b, 4);
+            tok::with_observer(&obs, || match (&slots[i].h, &slots[j].h) {
+                (H::Arc(x), H::Arc(y)) => match which {
+                    0 => res = Some(lib!(x == y)),
+                    1 => {
+                        let _ = lib!(x.partial_cmp(y));
+                    }
+                    2 => {
+                        let mut h = std::collections::hash_map::DefaultHasher::new();
+                        lib!(std::hash::Hash::hash(x, &mut h));
+                    }
+                    _ => {
+                        let _ = lib!(format!("{:?}", x));
+                    }
+                },
+                (H::Off(x), H::Off(y)) => {
+                    if which < 2 {
+                        res = Some(lib!(x == y));
+                    } else {
+                        let _ = lib!(format!("{:?}", x));
+                    }
+                }
+                (H::Hs(x), H::Hs(y)) => match which {
+                    0 => res = Some(lib!(x == y)),
+                    1 => {
+                        let _ = lib!(x.partial_cmp(y));
+                    }
+                    _ => {
+                        let _ = lib!(format!("{:?}", x));
+                    }
+                },
+                (H::U1(x), H::U1(y)) => {
+                    if which < 2 {
+                        res = Some(lib!(x == y));
+                    } else {
+                        let _ = lib!(format!("{:?}", x));
+                    }
+                }
+                (H::U2(x), H::U2(y)) => {
+                    if which < 2 {
+                        res = Some(lib!(x == y));
+                    } else {
+                        let _ = lib!(format!("{:?}", x));
+                    }
+                }
+                (H::Arc(x), H::Off(y)) | (H::Off(y), H::Arc(x)) => {
+                    res = Some(lib!(x.borrow_arc() == y.borrow_arc()));
+                }
+                _ => {}
+            });
+        }
+        if seen.get() {
+            self.facts.count_in_callback_at3 |= self.allocs[self.slots[i].alloc].owners >= 3;
         }
         if let Some(r) = res {
             if r != (vi == vj) {
                 viol::report(&["C14"], "E.eq", format!("slots {} and {} hold values {} and {} but == answered {}", i, j, vi, vj, r));
             }
         }
-        self.log(|| format!("compare/hash/format slots {} and {} -> {:?}", i, j, res));
+        self.log(|| format!("compare/hash/format slots {} and {} (variant {}) -> {:?}", i, j, b, res));
     }
 
     /// Release everything in a generated order; afterwards nothing may be alive or leaked.
@@ -1017,13 +1069,14 @@ impl<P: SizedPayload> Engine for SizedEngine<P> {
         crate::warm_arc_swap();
         let mut st: St<P> = St::new(trace);
         let r = catch_unwind(AssertUnwindSafe(|| {
+            let rule = self.prof.rule;
             for op in &case.ops {
                 st.step(&self.table, *op);
-                if viol::any() {
+                if viol::any_for(rule) {
                     break;
                 }
             }
-            if !viol::any() {
+            if !viol::any_for(rule) {
                 st.teardown(&case.params);
             }
         }));
